@@ -5,7 +5,7 @@ SEC = {'container': 'Container', 'image': 'Image', 'volume': 'Volume', 'network'
 TYPES = list(SEC)
 BASE = {'container': ['Image=localhost/img'], 'image': ['Image=quay.io/x/y'], 'volume': [], 'network': [], 'pod': [],
         'kube': ['Yaml=/opt/k.yaml'], 'build': ['ImageTag=localhost/t', 'File=/opt/Containerfile']}
-VALS = ['x', 'a b', '"a b"', "'q'", 'yes', 'no', 'true', '0', '', 'k=v', 'k=v l=w', '"k=v w" z=1', 'a:b', 'a:b:c:d', '/abs/p', './rel/p', '../up',
+VALS = ['-/dev/null:/dev/n:rwm', '-/dev/null:/dev/n', '/dev/null:/dev/n:rwm', '-/dev/nope:/dev/n:rwm', 'x', 'a b', '"a b"', "'q'", 'yes', 'no', 'true', '0', '', 'k=v', 'k=v l=w', '"k=v w" z=1', 'a:b', 'a:b:c:d', '/abs/p', './rel/p', '../up',
         '%h/x', '10', '1-2/tcp', 'é', 'a\\nb', 'a\\x41', 'auto', 'manual', 'keep-id', 'image', 'x.volume:/d', 'type=bind,source=./s,target=/t',
         'type=tmpfs,dst=/x', 'foo.network', 'host', 'none:opt', 'oneshot', 'notify', 'mixed', 'healthy', 'yaml', 'unit', 'file', 'registry',
         '-/dev/null', '-/dev/nope:rw', 'CAP_X y', 'a,b', 'a=b=c', '%%x', 'x y  z', '1000', 'keep-id:uid=1', 'local', 'nfs', '10.0.0.0/24']
@@ -58,16 +58,35 @@ def unit_set(rnd):
             return rnd.choice(c)
         return 'missing.' + ext
     files = {}
+
+    def named(k, v, allow_empty=True):
+        """the lines that give naming key k the value v — in one of the forms an assignment history can take (the value a
+        referrer sees must be the one the unit itself uses: last assignment / list with resets)"""
+        alt = 'stale-' + k.lower()   # must not contain v (the oracles look for v in the command line)
+        r = rnd.random()
+        if r < 0.5:
+            return [f'{k}={v}']
+        if r < 0.62:
+            return [f'{k}={alt}', f'{k}={v}']
+        if r < 0.74:
+            return [f'{k}={alt}', f'{k}=', f'{k}={v}']
+        if r < 0.82 and allow_empty:
+            return [f'{k}={v}', f'{k}=']
+        if r < 0.88 and allow_empty:
+            return [f'{k}=']
+        if r < 0.94:
+            return [f'{k}={v}', f'{k}={alt}']
+        return [f'{k}=', f'{k}={v}', f'{k}={alt}']
     for st, ty in units:
         L = ['[' + SEC[ty] + ']']
         if rnd.random() < 0.3:
-            L.append('ServiceName=' + rnd.choice(['svc-' + st.replace('@', ''), 'my svc']))
+            L += named('ServiceName', rnd.choice(['svc-' + st.replace('@', ''), 'my svc']), allow_empty=False)
         if ty == 'container':
             L.append('Image=' + rnd.choice(['localhost/i', ref('image'), ref('build')]))
             if rnd.random() < 0.3:
-                L.append('ContainerName=' + rnd.choice(['cn-' + st, '%p-x']))
+                L += named('ContainerName', rnd.choice(['cn-' + st, '%p-x']))
             if rnd.random() < 0.5:
-                L.append('Pod=' + rnd.choice([ref('pod'), 'notapod', '']))
+                L.append('Pod=' + rnd.choice([ref('pod'), ref('pod'), 'notapod', '', rnd.choice(names)]))
             if rnd.random() < 0.4:
                 L.append('StartWithPod=' + rnd.choice(['no', 'yes', '', 'x']))
             for _ in range(rnd.randint(0, 2)):
@@ -83,7 +102,7 @@ def unit_set(rnd):
                 L.append('ExposeHostPort=' + rnd.choice(['80', 'bad']))
         elif ty == 'volume':
             if rnd.random() < 0.3:
-                L.append('VolumeName=' + rnd.choice(['vn-' + st, '']))
+                L += named('VolumeName', 'vn-' + st)
             if rnd.random() < 0.3:
                 L += ['Driver=image', 'Image=' + rnd.choice([ref('image'), ref('build'), 'localhost/x'])]
             if rnd.random() < 0.1:
@@ -92,16 +111,16 @@ def unit_set(rnd):
                 L.append('Type=ext4')
         elif ty == 'network':
             if rnd.random() < 0.3:
-                L.append('NetworkName=nn-' + st)
+                L += named('NetworkName', 'nn-' + st)
             if rnd.random() < 0.15:
                 L.append('Gateway=10.0.0.1')
         elif ty == 'image':
             L.append('Image=' + rnd.choice(['quay.io/x/' + st.replace('@', ''), '']))
             if rnd.random() < 0.3:
-                L.append('ImageTag=localhost/tag-' + st.replace('@', ''))
+                L += named('ImageTag', 'localhost/tag-' + st.replace('@', ''))
         elif ty == 'build':
             if rnd.random() < 0.85:
-                L.append('ImageTag=localhost/built-' + st.replace('@', ''))
+                L += named('ImageTag', 'localhost/built-' + st.replace('@', ''))
             L.append('File=/opt/Containerfile')
             if rnd.random() < 0.4:
                 L.append('Volume=' + ref('volume') + ':/b')
@@ -113,7 +132,7 @@ def unit_set(rnd):
                 L.append('Network=' + ref('network') + rnd.choice(['', '', ':ip6=fd00::5']))
         elif ty == 'pod':
             if rnd.random() < 0.3:
-                L.append('PodName=pn-' + st)
+                L += named('PodName', 'pn-' + st)
             if rnd.random() < 0.4:
                 L.append('Network=' + ref('network') + rnd.choice(['', '', ':mac=92:d0:c6:0a:29:33,ip=1.2.3.4']))
             if rnd.random() < 0.4:
@@ -132,3 +151,94 @@ def sorted_order(rnd, names, tables=None):
     rnd.shuffle(idx)
     idx.sort(key=lambda i: pr.get(names[i].rsplit('.', 1)[1], 10 ** 6))
     return idx
+
+
+# ---------------------------------------------------------------------------------------------------------------
+# handler-group stream: decision logic over *combinations* of keys.  The groups are read off the source on every run
+# (tables['convert'][fn]['lookups'], from tools/extract_tables.py): all keys one handler function looks at.  For every
+# group and every unit type that supports some of its keys, every subset of the keys is generated (presence/absence
+# is what the handlers branch on), with values drawn from the string literals the handler compares against plus a
+# small general domain.
+
+GENERAL = ['', 'x', 'yes', 'no', '0', '10', 'a b', '/abs/p', 'rel/p', '~', '-/opt/o', '%h/x', 'a:b', '1:2:3', 'k=v']
+
+
+def fn_literals(repo, fn):
+    """short string literals in the body of fn in convert.rs (candidate values the function compares against)"""
+    import re, os
+    try:
+        src = open(os.path.join(repo, 'src', 'quadlet', 'convert.rs'), encoding='utf-8').read()
+    except OSError:
+        return []
+    m = re.search(r'\bfn\s+' + re.escape(fn) + r'\b', src)
+    if not m:
+        return []
+    n = re.search(r'\n(?:pub(?:\([a-z]+\))?\s+)?fn\s', src[m.end():])
+    body = src[m.end(): m.end() + n.start()] if n else src[m.end():]
+    lits = re.findall(r'"((?:[^"\\]|\\.){1,24})"', body)
+    return sorted({l for l in lits if '{' not in l and not l.startswith('--') and ' ' not in l and not re.match(r'^[A-Z][A-Za-z]+$', l)})
+
+
+def handler_groups(tables, repo):
+    out = []
+    for fn, info in tables['convert'].items():
+        keys = []
+        for kind, sec, key in info.get('lookups', []):
+            if (sec, key) not in [(a, b) for a, b, _ in keys]:
+                keys.append((sec, key, kind))
+        for tname, rows in info.get('tables', {}).items():
+            pass
+        if keys:
+            out.append((fn, keys, fn_literals(repo, fn)))
+    return out
+
+
+def group_units(rnd, tables, repo, reps=1, max_subsets=96):
+    """list of (type, text, group function name)"""
+    units = []
+    groups = handler_groups(tables, repo)
+    # a key looked at by several functions (a handler and the handler it delegates to) gets the literals of all of them
+    key_lits = {}
+    for fn, keys, lits in groups:
+        for _, k, _ in keys:
+            key_lits.setdefault(k, set()).update(lits)
+    for fn, keys, lits in groups:
+        m = __import__('re').match(r'from_(\w+)_unit$', fn)
+        for ty in TYPES:
+            if m and m.group(1) != ty:
+                continue
+            sup = set(tables['supported'][SUP[ty]])
+            own = [(k, kind) for sec, k, kind in keys if sec not in ('SERVICE_SECTION', 'UNIT_SECTION', 'INSTALL_SECTION', 'QUADLET_SECTION') and k in sup]
+            other = [(sec, k, kind) for sec, k, kind in keys if sec in ('SERVICE_SECTION', 'UNIT_SECTION', 'QUADLET_SECTION')]
+            if not own:
+                continue
+            allk = [('own', k, kind) for k, kind in own] + other
+            if len(allk) > 12:
+                allk = rnd.sample(allk, 12)
+            n = len(allk)
+            if 2 ** n <= max_subsets:
+                subsets = list(range(2 ** n))
+            else:
+                subsets = [rnd.getrandbits(n) for _ in range(max_subsets)] + [0, 2 ** n - 1] + [1 << i for i in range(n)] + [(2 ** n - 1) ^ (1 << i) for i in range(n)]
+            gkeys = {k for _, k, _ in allk}
+            base = [b for b in BASE[ty] if b.split('=')[0] not in gkeys]
+            for sub in subsets:
+                for _ in range(max(reps, min(16, 128 // 2 ** n))):
+                    L = {'own': [], 'SERVICE_SECTION': [], 'UNIT_SECTION': [], 'QUADLET_SECTION': []}
+                    for i, (sec, k, kind) in enumerate(allk):
+                        if not (sub >> i) & 1:
+                            continue
+                        kl = sorted(key_lits.get(k, ()))
+                        dom = (kl if kl and rnd.random() < 0.5 else GENERAL)
+                        if kind == 'lookup_bool' and rnd.random() < 0.6:
+                            dom = ['yes', 'no', 'true', 'false', '']
+                        v = rnd.choice(dom)
+                        L[sec].append(f'{k}={v}')
+                        if kind.startswith('lookup_all') and rnd.random() < 0.3:
+                            L[sec].append(f'{k}={rnd.choice(dom)}')
+                    text = ['[' + SEC[ty] + ']'] + base + L['own']
+                    for sec, hdr in (('SERVICE_SECTION', '[Service]'), ('UNIT_SECTION', '[Unit]'), ('QUADLET_SECTION', '[Quadlet]')):
+                        if L[sec]:
+                            text += [hdr] + L[sec]
+                    units.append((ty, '\n'.join(text) + '\n', fn))
+    return units
